@@ -1,18 +1,19 @@
 --------------------------------- MODULE OpfObs ---------------------------------
 (* C16 / C17, implementation level.  One case = one configuration of Opf.tla instantiated as a pandapower net         *)
-(* (from Inst(cfg), see OpfInst.tla) and run through runopp (cfg.ac) or rundcopp, with the documented solver options   *)
-(* of cfg.opts ("tight": OPF_VIOLATION = PDIPM_GRADTOL = PDIPM_COMPTOL = 1e-8, PDIPM_COSTTOL = 1e-9; with 1e-9 PIPS     *)
-(* gives up on most cases in which the slack power is free of charge).                                                 *)
+(* (from Inst(cfg), see OpfInst.tla) and run through runopp (cfg.ac; init = Inst(cfg).init) or rundcopp, with the      *)
+(* documented solver options of cfg.opts ("tight": OPF_VIOLATION = PDIPM_GRADTOL = PDIPM_COMPTOL = 1e-8,                 *)
+(* PDIPM_COSTTOL = 1e-9; with 1e-9 PIPS gives up on most cases in which the slack power is free of charge).             *)
 (* Observations (fixed point, micro-units; NaN sentinel where a DC result has no value):                               *)
 (*   o.conv, o.err        OPF_converged / exception class                                                              *)
 (*   o.vm, o.va           res_bus.vm_pu, va_degree of buses 0..3                                                       *)
-(*   o.p[e], o.q[e]       the element's own result power, USER-SIDE convention of OpfDef (dcline: p_from_mw, q_from)    *)
+(*   o.p[e], o.q[e]       the element's own result power, USER-SIDE convention of OpfDef (e in Et \ {dcline})           *)
 (*   o.basep, o.baseq     the fixed base load;   o.genvm  res_gen.vm_pu                                                *)
-(*   o.pto, o.qto         res_dcline.p_to_mw, q_to_mvar                                                                *)
+(*   o.dc                 one record per row of res_dcline: pf, pt, qf, qt = p_from_mw, p_to_mw, q_from_mvar, q_to_mvar  *)
 (*   o.loading            loading_percent of <<T, A, B, C>> (C: 0 when absent)                                         *)
 (*   o.cost               net.res_cost                                                                                *)
 (*   o.pf                 a power flow (runpp / rundcpp, tolerance_mva 1e-9) on a copy of the net with the OPF dispatch *)
-(*                        written into the set point columns: conv, vm, va, egp, egq, genq, loading, pto               *)
+(*                        written into the set point columns (dcline.p_mw: the power of the sending end with the sign  *)
+(*                        of the direction): conv, vm, va, egp, egq, genq, loading, dc (pf, pt, qf, qt per dcline)       *)
 (*   rb                   limits / cost rows read back from the element tables of the built net (harness self-check)   *)
 (* The required values -- limits, set points, the user's cost, the grid optimum -- are computed here from cfg alone.    *)
 EXTENDS OpfDef, Json, IOUtils
@@ -25,11 +26,13 @@ Cfg == C.cfg
 O == C.o
 
 (* Tolerances.  PIPS stops when  max(|g|_inf, max h) / (1 + max(|x|_inf, |z|_inf)) < PDIPM_FEASTOL (= OPF_VIOLATION,  *)
-(* default 5e-6; pypower/pips.py:331 feascond).  baseMVA = net.sn_mva = 1, so powers in p.u. are MW numbers; x holds     *)
+(* default 5e-6; pypower/pips.py:331 feascond).  With baseMVA = net.sn_mva = 1 powers in p.u. are MW numbers; x holds      *)
 (* powers up to 10, and z the slacks of the inequality constraints, the largest being those of the branch flow limits,  *)
 (* which are stated on SQUARED MVA: up to Smax^2 = 400.  A converged result may therefore miss any single constraint    *)
 (* (a bound on p, q, vm, a nodal balance) by 5e-6*401 = 2e-3 (MW, Mvar, p.u.) with default options and by 4e-6 with the   *)
 (* tightened ones -- that is "the OPF tolerance" of the property.  TolLim adds a margin resp. the fixed-point resolution. *)
+(* With sn_mva = 10 the same relative criterion is met in p.u. of 10 MVA: x <= 1.1 (voltages; angles of a phase shifted  *)
+(* side up to 2.7 rad), z <= 4, i.e. 5e-6*5*10 MVA = 2.5e-4 MW -- inside the bound derived for sn_mva = 1.                 *)
 (* Flow limits: S^2 - Smax^2 <= 2e-3 with Smax >= 4 MVA is a loading excess below 0.007 %.                                 *)
 (* DC OPF: the flow limits are linear (|z| <= 2*20), 5e-6*41 = 2e-4; the LP / QP is in fact solved to ~1e-8.              *)
 (* The sharp check is the one with tightened options (smallest effect looked for: 1e-3 MW resp. 1 EUR).                   *)
@@ -58,16 +61,24 @@ VMin == VBand(Cfg.vband)[1]
 VMax == VBand(Cfg.vband)[2]
 Row(e) == CostRowOf(Cfg, e)
 Has(e) == El(e).present
+N == NDcl(Cfg)
+\* the power that a cost row of kind e refers to: the dcline row belongs to the last line
+P(e) == IF e = "dcline" THEN (IF N = 0 THEN 0 ELSE O.dc[N].pf) ELSE O.p[e]
+Q(e) == IF e = "dcline" THEN (IF N = 0 THEN 0 ELSE O.dc[N].qf) ELSE O.q[e]
+ObservedLines == Len(O.dc) = N
 
 C16_VoltageLimits == (O.conv /\ Cfg.ac) => \A k \in 1..4 : Within(O.vm[k], VMin, VMax, TolLim)
-C16_ActiveLimits == O.conv => \A e \in Et : (Has(e) /\ PFree(Cfg, e)) => Within(O.p[e], El(e).pmin * M, El(e).pmax * M, TolLim)
+C16_ActiveLimits == O.conv => \A e \in Et \ {"dcline"} : (Has(e) /\ PFree(Cfg, e)) => Within(O.p[e], El(e).pmin * M, El(e).pmax * M, TolLim)
 \* q limits are declared for every ppc generator: ext_grid, gen (also a non-controllable one, build_gen.py:224) and the
 \* controllable sgen / load / storage
 C16_ReactiveLimits == (O.conv /\ Cfg.ac) => \A e \in Et \ {"dcline"} : IsVar(Cfg, e) => Within(O.q[e], El(e).qmin * M, El(e).qmax * M, TolLim)
 C16_FixedSetpoints ==
   O.conv =>
-    /\ \A e \in PQ : ~Cfg.ctrl[e] => /\ Within(O.p[e], El(e).pset * M, El(e).pset * M, TolSet)
-                                     /\ (Cfg.ac => Within(O.q[e], El(e).qset * M, El(e).qset * M, TolSet))
+    /\ \A e \in PQ : (~Cfg.ctrl[e] /\ InService(Cfg, e)) => /\ Within(O.p[e], El(e).pset * M, El(e).pset * M, TolSet)
+                                                            /\ (Cfg.ac => Within(O.q[e], El(e).qset * M, El(e).qset * M, TolSet))
+    \* an element that is out of service exchanges no power
+    /\ \A e \in PQ : ~InService(Cfg, e) => /\ Within(O.p[e], 0, 0, TolSet)
+                                           /\ (Cfg.ac => Within(O.q[e], 0, 0, TolSet))
     /\ Within(O.basep, BaseP * M, BaseP * M, TolSet) /\ (Cfg.ac => Within(O.baseq, BaseQ * M, BaseQ * M, TolSet))
     \* a non-controllable gen keeps p_mw and vm_pu (build_gen.py:183-201), a non-controllable ext_grid its vm_pu
     \* (build_gen.py:125-137); the reference angle is the ext_grid's va_degree = 0
@@ -77,20 +88,31 @@ C16_FixedSetpoints ==
     /\ Within(O.va[1], 0, 0, TolSet)
 BranchSeq == <<"T", "A", "B", "C">>
 C16_BranchLoading == O.conv => \A k \in 1..4 : (BranchSeq[k] # "C" \/ Cfg.mesh) => Within(O.loading[k], 0, MaxLoading(BranchSeq[k], Cfg.rate) * M, TolLoad)
+\* every dcline: p_from within [0, max_p_mw] in its direction ([-max_p_mw, 0] for a line operated in reverse), the power of
+\* the other end within max_p_mw as well, q of both ends within the declared limits
 C16_DclineLimits ==
-  (O.conv /\ Has("dcline")) =>
-     /\ Within(O.p["dcline"], 0, El("dcline").pmax * M, TolLim)
-     /\ (Cfg.ac => /\ Within(O.q["dcline"], El("dcline").qmin * M, El("dcline").qmax * M, TolLim)
-                   /\ Within(O.qto, El("dcline").qmin * M, El("dcline").qmax * M, TolLim))
+  O.conv =>
+     /\ ObservedLines
+     /\ \A k \in 1..N : LET l == LineOf(Cfg, k) IN
+           /\ Within(O.dc[k].pf, DclPLim(Cfg, k)[1] * M, DclPLim(Cfg, k)[2] * M, TolLim)
+           /\ Within(O.dc[k].pt, -l.pmax * M, l.pmax * M, TolLim)
+           /\ (Cfg.ac => /\ Within(O.dc[k].qf, l.qmin * M, l.qmax * M, TolLim)
+                         /\ Within(O.dc[k].qt, l.qmin * M, l.qmax * M, TolLim))
+\* reactive power of the voltage controlling elements at the generator's bus (the gen and the dcline ends there,
+\* res_dcline.q_* = -q of the end's generator): a power flow determines their sum, not the shares
+GenBusQ(genq, dc) == genq - SumTo([k \in 1..N |-> (IF DclFrom(k) = BusOf("gen") THEN dc[k].qf ELSE 0)
+                                                  + (IF DclTo(k) = BusOf("gen") THEN dc[k].qt ELSE 0)], N)
 C16_ValidPowerFlow ==
   O.conv =>
      /\ O.pf.conv
      /\ CloseSeq(O.va, O.pf.va, 10 * TolPf, 20)
      /\ Close(O.p["ext_grid"], O.pf.egp, TolPf, 20)
      /\ CloseSeq(O.loading, O.pf.loading, TolPfLoad, 20)
-     /\ (Has("dcline") => Close(O.pto, O.pf.pto, TolPf, 20))
+     /\ ObservedLines /\ Len(O.pf.dc) = N
+     /\ \A k \in 1..N : Close(O.dc[k].pf, O.pf.dc[k].pf, TolPf, 20) /\ Close(O.dc[k].pt, O.pf.dc[k].pt, TolPf, 20)
      /\ (Cfg.ac => /\ CloseSeq(O.vm, O.pf.vm, TolPf, 20)
-                   /\ Close(O.q["ext_grid"], O.pf.egq, TolPf, 20) /\ Close(O.q["gen"], O.pf.genq, TolPf, 20))
+                   /\ Close(O.q["ext_grid"], O.pf.egq, TolPf, 20)
+                   /\ Close(GenBusQ(O.q["gen"], O.dc), GenBusQ(O.pf.genq, O.pf.dc), TolPf, 20))
 
 -----------------------------------------------------------------------------
 (* C17.  Cost of the reported operating point by the user's functions, in micro EUR, from powers in micro MW.          *)
@@ -103,9 +125,9 @@ RowMicro(row, p, q) ==
   IF row.kind = "poly" THEN row.c2 * SqMicro(p) + row.c1 * p + row.c0 * M
                             + (IF row.q2 # 0 \/ row.q1 # 0 \/ row.q0 # 0 THEN row.q2 * SqMicro(q) + row.q1 * q + row.q0 * M ELSE 0)
   ELSE IF row.kind = "pwl" THEN PwlAt(row.pts, p, M) ELSE 0
-RowOf(e) == RowMicro(Row(e), O.p[e], O.q[e])
+RowOf(e) == RowMicro(Row(e), P(e), Q(e))
 UserCostMicro == RowOf("ext_grid") + RowOf("gen") + RowOf("sgen") + RowOf("load") + RowOf("storage") + RowOf("dcline")
-PowersAreNumbers == \A e \in Costed(Cfg) : IsNum(O.p[e]) /\ ((Row(e).q2 # 0 \/ Row(e).q1 # 0 \/ Row(e).q0 # 0) => IsNum(O.q[e]))
+PowersAreNumbers == \A e \in Costed(Cfg) : IsNum(P(e)) /\ ((Row(e).q2 # 0 \/ Row(e).q1 # 0 \/ Row(e).q0 # 0) => IsNum(Q(e)))
 C17_CostIsUserFunction == O.conv => (PowersAreNumbers /\ Close(O.cost, UserCostMicro, TolCost, 20))
 \* independent optimum, decided for radial lossless DC cases only (OpfDef: GridApplicable): exact for linear / convex pwl
 \* costs, an upper bound for convex quadratic ones
@@ -132,28 +154,41 @@ CodeRowMicro(row, e, p, q) ==
            + (IF row.q2 # 0 \/ row.q1 # 0 \/ row.q0 # 0 THEN row.q2 * seq * SqMicro(q) + row.q1 * q + row.q0 * seq * M ELSE 0)
       \* pwl rows: the transcribed function equals the user's on every generated row (Opf!PwlTranscriptionAgrees)
       ELSE IF row.kind = "pwl" THEN PwlAt(row.pts, p, M) ELSE 0
-CodeOf(e) == CodeRowMicro(Row(e), e, O.p[e], O.q[e])
+\* (the row of a ghost is dropped by the code: make_objective.py:42-58)
+CodeOf(e) == IF e = Cfg.ghost THEN 0 ELSE CodeRowMicro(Row(e), e, P(e), Q(e))
 CodeCostMicro == CodeOf("ext_grid") + CodeOf("gen") + CodeOf("sgen") + CodeOf("load") + CodeOf("storage") + CodeOf("dcline")
 Conf_CodeObjective == (O.conv /\ PowersAreNumbers) => Close(O.cost, CodeCostMicro, TolCost, 20)
 \* dcline constraint of the OPF (optimal_powerflow.py:105-129), cross-multiplied by 100 + loss_percent resp. 100:
 \*   unchanged tree: (100 + lp) * p_to = -100 * (p_from - loss)        with C16_1: 100 * p_to = -((100 - lp) * p_from - 100 * loss)
+\* (the same relation whatever the direction of the line, see OpfDef: dcline loss laws)
 Conf_DclineLaw ==
-  (O.conv /\ Has("dcline")) =>
-     LET lp == DclLossPercent(Cfg.dcl)
-         loss == DclLossKw(Cfg.dcl) * 1000
-         pf == O.p["dcline"]
-     IN  IF TreeHasC16_1 THEN Abs(100 * O.pto + (100 - lp) * pf - 100 * loss) <= 100 * TolLim
-         ELSE Abs((100 + lp) * O.pto + 100 * (pf - loss)) <= (100 + lp) * TolLim
+  O.conv => /\ ObservedLines
+            /\ \A k \in 1..N :
+                 LET lp == LineOf(Cfg, k).loss_percent
+                     loss == LineOf(Cfg, k).loss_kw * 1000
+                     pf == O.dc[k].pf
+                     pt == O.dc[k].pt
+                 IN  IsNum(pf) /\ IsNum(pt) /\
+                     IF TreeHasC16_1 THEN Abs(100 * pt + (100 - lp) * pf - 100 * loss) <= 100 * TolLim
+                     ELSE Abs((100 + lp) * pt + 100 * (pf - loss)) <= (100 + lp) * TolLim
 
 -----------------------------------------------------------------------------
 (* Harness self-check (a failure is a machinery error, not a finding): the element tables of the built net carry       *)
 (* exactly the data of Inst(cfg).                                                                                       *)
-RbEl(e) == IF Has(e) THEN <<El(e).pmin, El(e).pmax, El(e).qmin, El(e).qmax, IF El(e).ctrl THEN 1 ELSE 0>> ELSE <<0, 0, 0, 0, 0>>
+RbEl(e) == <<El(e).pmin, El(e).pmax, El(e).qmin, El(e).qmax, IF El(e).ctrl THEN 1 ELSE 0, IF El(e).ins THEN 1 ELSE 0>>
+RbLine(k) == LET l == LineOf(Cfg, k) IN <<l.from, l.to, l.pset, l.pmax, l.qmin, l.qmax, l.loss_percent, l.loss_kw, l.vmf, l.vmt>>
 RbCost(e) == LET r == Row(e) IN [kind |-> r.kind, co |-> <<r.c2, r.c1, r.c0, r.q2, r.q1, r.q0>>, pts |-> r.pts]
+\* the order of the rows in net.poly_cost / net.pwl_cost, and the dcline row's `element`
+RECURSIVE OrderOf(_, _)
+OrderOf(seq, kind) == IF seq = <<>> THEN <<>> ELSE (IF Row(Head(seq)).kind = kind THEN <<Head(seq)>> ELSE <<>>) \o OrderOf(Tail(seq), kind)
 Harness_Instantiated ==
-  /\ \A e \in Et : C.rb.el[e] = RbEl(e) /\ C.rb.cost[e].kind = RbCost(e).kind /\ C.rb.cost[e].co = RbCost(e).co
+  /\ \A e \in Et \ {"dcline"} : C.rb.el[e] = RbEl(e)
+  /\ \A e \in Et : /\ C.rb.cost[e].kind = RbCost(e).kind /\ C.rb.cost[e].co = RbCost(e).co
                    /\ Len(C.rb.cost[e].pts) = Len(RbCost(e).pts) /\ \A k \in 1..Len(RbCost(e).pts) : C.rb.cost[e].pts[k] = RbCost(e).pts[k]
+  /\ Len(C.rb.lines) = N /\ \A k \in 1..N : C.rb.lines[k] = RbLine(k)
+  /\ C.rb.order_poly = OrderOf(CostOrder(Cfg), "poly") /\ C.rb.order_pwl = OrderOf(CostOrder(Cfg), "pwl")
+  /\ (Row("dcline").kind # "none" => C.rb.dcl_cost_row = N - 1)
   /\ C.rb.vband = <<VMin, VMax>>
   /\ C.rb.maxload = <<MaxLoading("T", Cfg.rate), MaxLoading("A", Cfg.rate), MaxLoading("B", Cfg.rate), IF Cfg.mesh THEN MaxLoading("C", Cfg.rate) ELSE 0>>
-  /\ C.rb.loss = <<DclLossPercent(Cfg.dcl), DclLossKw(Cfg.dcl)>>
+  /\ C.rb.shift = ShiftDeg(Cfg.shift) /\ C.rb.sn = Cfg.sn
 =============================================================================
